@@ -27,6 +27,9 @@ type c17Scenario struct {
 	bound   int
 	planner string
 	conns   int // client connections, one after the other, each running the whole script (0 = 1)
+	// slow: the client's receive buffer holds 16 bytes, the client reads nothing for 6.5 s once the subscriptions
+	// are established, then reads on; it terminates at 10 s; the heartbeat ticker may fire once
+	slow bool
 }
 
 func (sc c17Scenario) name() string {
@@ -46,6 +49,9 @@ func (sc c17Scenario) name() string {
 	cs := ""
 	if sc.conns > 1 {
 		cs = fmt.Sprintf(" x%d connections in sequence", sc.conns)
+	}
+	if sc.slow {
+		cs += " slow-reader heartbeats<=1"
 	}
 	return fmt.Sprintf("subs=%s%s upstream=%s%s PB<=%d planner=%s", strings.Join(sc.subs, " || "), vs, strings.Join(us, ""), cs, sc.bound, sc.planner)
 }
@@ -97,11 +103,17 @@ func c17Harness(h *gwHarness, sc c17Scenario) explore.Harness {
 					writeClientFrame(cli, clientMsg("start", fmt.Sprint(i+1), pl))
 					vrt.Recv(env.startedC)
 				}
+				if sc.slow {
+					slowReader(cli)
+				}
 				vrt.Explore(true)
 				for _, u := range env.ups[first:] {
 					vrt.Send(u.goC, 1)
 				}
 				vrt.GoDaemon("client-writer", func() {
+					if sc.slow {
+						vrt.Sleep(10 * time.Second) // the reader has caught up long before
+					}
 					vrt.WaitIdle() // every emitted event has been processed (or is stuck for good)
 					writeClientFrame(cli, clientMsg("connection_terminate", "", nil))
 				})
@@ -189,11 +201,24 @@ func c17ConnVerdict(h *gwHarness, sc c17Scenario, srv *vrt.Conn, c int) string {
 		if i < len(sc.vars) {
 			cvars = sc.vars[i]
 		}
+		epoch := 0
 		for _, act := range script {
 			switch act {
-			case "event", "dataerrors":
-				n++
-				data, err := gqlref.Execute(h.fed.Merged, h.fed.W.Monolith(h.fed.Merged, a.Counters{"__event": (c*len(sc.subs)+i)*10 + n}), doc.Operations[0], cvars, nil)
+			case "event", "dataerrors", "event-changed":
+				if act == "event-changed" {
+					// the same entity again after the data of the services has changed
+					epoch++
+					if n == 0 {
+						n = 1
+					}
+				} else {
+					n++
+				}
+				cnt := a.Counters{"__event": (c*len(sc.subs)+i)*10 + n}
+				if epoch > 0 {
+					cnt["__epoch"] = epoch
+				}
+				data, err := gqlref.Execute(h.fed.Merged, h.fed.W.Monolith(h.fed.Merged, cnt), doc.Operations[0], cvars, nil)
 				if err != nil {
 					return "HARNESS: reference failed " + err.Error()
 				}
@@ -312,6 +337,20 @@ func c17Scenarios(tier string) []c17Scenario {
 		out = append(out, c17Scenario{world: "W0+subscription-roots+entity-scalar-arg-default", subs: []string{vq},
 			vars: []map[string]interface{}{{"p": "en"}}, up: [][]upAction{{"event", "event"}}, bound: 1, planner: "plain"})
 	}
+	// the data of the other services changes between two events about the same entity: the second
+	// event is stitched with what the services answer then
+	for _, q := range []string{c17Subs[2], c17Subs[3], c17Subs[4]} {
+		for _, s := range [][]upAction{{"event", "event-changed"}, {"event", "event", "event-changed"}} {
+			out = append(out, c17Scenario{world: "W0+subscription-roots", subs: []string{q}, up: [][]upAction{s}, bound: 1, planner: "plain"})
+		}
+		out = append(out, c17Scenario{world: "W0+subscription-roots", subs: []string{q}, up: [][]upAction{{"event", "event-changed"}}, bound: 1, planner: "cached"})
+	}
+	// a reader that stalls while a data frame is half-way and the heartbeat comes due: the event still arrives, once and whole
+	for _, q := range []string{c17Subs[0], c17Subs[2]} {
+		for _, s := range [][]upAction{{"event"}, {"event", "event"}} {
+			out = append(out, c17Scenario{world: "W0+subscription-roots", subs: []string{q}, up: [][]upAction{s}, bound: 2 - len(s), planner: "plain", slow: true})
+		}
+	}
 	for _, q := range c17Subs {
 		for _, s := range seqs {
 			out = append(out, c17Scenario{world: "W0+subscription-roots", subs: []string{q}, up: [][]upAction{s}, bound: 1, planner: "plain"})
@@ -342,9 +381,9 @@ func c17Scenarios(tier string) []c17Scenario {
 func init() {
 	Specs["C17"] = &Spec{
 		ID: "C17",
-		Rule: "scenario = (1-2 subscriptions on one connection (also two connections in sequence on one gateway) out of 9 subscription operations (one with a per-subscription variable for a field of another service) whose selection needs 0, 1 or 2 other services, lists, value types, aliases, __typename; upstream event history per subscription over {event, error payload, event with data and errors, complete} " +
+		Rule: "scenario = (1-2 subscriptions on one connection (also two connections in sequence on one gateway) out of 9 subscription operations (one with a per-subscription variable for a field of another service) whose selection needs 0, 1 or 2 other services, lists, value types, aliases, __typename; upstream event history per subscription over {event, error payload, event with data and errors, complete, the previous event again after every value of the services' data has changed} " +
 			"of length <=3; planner plain/cached); the real subscriptionHandler / subscriptionEntry / MultiOpQueryer.Subscribe (rewritten) run over scheduler-aware pipes against a gobwas upstream and evaluating in-memory services; " +
-			"every schedule with <=1 preemption (two subscriptions: bound 0 quick, 1 thorough) is executed; the client terminates once the system is idle; oracle at the client's frame parser: per subscription id the sequence of data payloads " +
+			"every schedule with <=1 preemption (two subscriptions: bound 0 quick, 1 thorough) is executed; the client terminates once the system is idle; plus a slow reader (16-byte receive buffer, nothing read from 0 to 6.5 s while events arrive and the 4 s heartbeat comes due, terminate at 10 s); oracle at the client's frame parser: per subscription id the sequence of data payloads " +
 			"== reference evaluation of the client operation on each emitted event, in emission order, exactly once, helpers absent, never under another id, upstream error payloads arrive as errors; non-trivial = >1 execution",
 		Assumptions: []string{"one upstream connection per subscription, dialled in start order", "connections are explored one after the other, not overlapping; a downstream call made through a queryer that was created for a client connection which has ended fails (as with the default factory's request-bound context)"},
 		Budget: func(tier string) time.Duration {
@@ -380,8 +419,13 @@ func init() {
 				if sc.planner == "cached" {
 					atoms = append(atoms, "cfg-cached-planner")
 				}
+				timerBudget := 0
+				if sc.slow {
+					atoms = append(atoms, "slow-reader", "heartbeat")
+					timerBudget = 1
+				}
 				out = append(out, Scenario{Name: sc.name(), Atoms: atoms,
-					Opt:   explore.Options{Bound: sc.bound, Cache: true, Horizon: 100000},
+					Opt:   explore.Options{Bound: sc.bound, Cache: true, Horizon: 100000, TimerBudget: timerBudget},
 					H:     c17Harness(h, sc),
 					Fresh: func() explore.Harness { return c17Harness(h.freshCopy(), sc) }})
 			}
